@@ -253,7 +253,10 @@ func (w FederatingWrappedCallbacks) create(c context.Context, a vocab.ActivitySt
 			}
 			t, err = streams.ToType(c, m)
 			if err != nil {
-				return err
+				// Not the error value itself: a streams.ErrUnhandledType
+				// leaving this callback would be taken for "no callback
+				// handles a Create".
+				return fmt.Errorf("cannot handle federated create: object at %s: %v", iter.GetIRI(), err)
 			}
 		} else if t == nil {
 			return fmt.Errorf("cannot handle federated create: object is neither a value nor IRI")
@@ -519,7 +522,8 @@ func (w FederatingWrappedCallbacks) accept(c context.Context, a vocab.ActivitySt
 				}
 				t, err = streams.ToType(c, m)
 				if err != nil {
-					return err
+					// Not the error value itself, see create.
+					return fmt.Errorf("cannot handle federated accept: object at %s: %v", iter.GetIRI(), err)
 				}
 			} else if t == nil {
 				return fmt.Errorf("cannot handle federated create: object is neither a value nor IRI")
